@@ -85,6 +85,11 @@ def gss_case(rep, drv, rng):
 		bad.append('model states not ordered (side condition of gss_bracket fails)')
 	if h > tol and evals[0] != n + 2:
 		same = False
+	if not same and not bad and 'minGap' in mo and float(unfr(mo['minGap'])) <= 1e-9 * max(1.0, abs(res[1]) if res[0] != 'error' else 1.0):
+		# f(c) = f(d) (to rounding) at some step: binary64 may take the other branch; both end points are within tol of the minimiser
+		# (checked above on the real result). Not comparable step by step - counted, not reported.
+		rep.count('gss:numerically-ambiguous-tie')
+		same = True
 	if not same or bad:
 		rep.diff('golden_section_search', 'python %r (evaluations %d) model x=%s fx=%s (n=%d)%s' % (
 			res, evals[0], float(unfr(mo['x'])), float(unfr(mo['fx'])), n, (' | ' + '; '.join(bad)) if bad else ''), case,
@@ -117,14 +122,34 @@ def enum_case(rep, drv, rng):
 		kw.update(truncation_lo=rng.randint(0, 4), truncation_hi=rng.randint(5, 12), discretization_num=rng.choice([2, 4]))
 	else:
 		kw.update(truncation_lo=-3, truncation_hi=0)
+	# the documented grid, computed first: it bounds the number of objective evaluations the enumeration may perform
+	opt0 = drv.call('optgroup', groups=[sorted(g) for g in groups] if groups else [], nodes=node_ids)
+	size = 1
+	for n in sorted(set(opt0)):
+		if mode == 'explicit':
+			size *= len(kw['base_stock_levels'][n])
+		else:
+			pk = lambda v: v[n] if isinstance(v, dict) else v
+			size *= len(drv.call('grid', lo=fr(pk(kw.get('truncation_lo'))), hi=fr(pk(kw.get('truncation_hi'))),
+								 step=fr(pk(kw.get('discretization_step'))) if kw.get('discretization_step') is not None else None,
+								 num=pk(kw.get('discretization_num')) if kw.get('discretization_num') is not None else None))
+	class TooMany(Exception):
+		pass
 	calls = []
 	def obj(S):
 		calls.append(dict(S))
+		if len(calls) > size + 5:
+			raise TooMany()
 		return fv([S[n] for n in node_ids])
+	too_many = False
 	try:
 		with warnings.catch_warnings():
 			warnings.simplefilter('ignore')
-			best_S, best_cost = meio_by_enumeration(net, groups=groups, objective_function=obj, progress_bar=False, **kw)
+			with core.time_limit(int(15 + size / 2000)):          # a documented grid of `size` vectors is enumerated in far less than this
+				best_S, best_cost = meio_by_enumeration(net, groups=groups, objective_function=obj, progress_bar=False, **kw)
+	except (TooMany, core.TimedOut):
+		too_many = True
+		best_S, best_cost = None, 'enumeration went beyond the %d vectors of the documented grid (stopped after %d objective evaluations%s)' % (size, len(calls), ('; e.g. %s' % calls[-1]) if calls else ' - still building a larger grid')
 	except Exception as e:
 		best_S, best_cost = None, err_enum(e)
 	case = {'nodes': node_ids, 'obj': spec, 'groups': [sorted(g) for g in groups] if groups else None, 'mode': mode,
@@ -133,7 +158,7 @@ def enum_case(rep, drv, rng):
 	rep.count('enum:' + mode + (':grouped' if groups else ''))
 	bad = []
 	if best_S is None:
-		bad.append('raised ' + str(best_cost))
+		bad.append(str(best_cost) if too_many else 'raised ' + str(best_cost))
 	else:
 		# predicate: reported cost is the objective at the vector; minimal over everything evaluated (= the grid); groups share a level
 		if abs(best_cost - fv([best_S[n] for n in node_ids])) > 1e-9:
